@@ -18,6 +18,8 @@ def t3(rep, tier, seed):
         B = rng.choice([20, 50, 100])
         dom.append({"values": [rng.randint(1, B) for _ in range(n)], "B": B})
     dom += [{"values": v, "B": B} for v, B in REGRESSION]
+    from props._domains import threshold_packs
+    dom += threshold_packs(tier)          # items on the thresholds of the pruning rules (exact halves / thirds), 7-8 items
     rep.add(H.run_case("C04/T3/bc/minimum-bins", "prtpy/packing/bin_completion.py::bin_completion", T.c04_case, dom,
                        "all multisets n<=6..8 of values 1..Z for Z in {6,10,12}; seeded random n<=12/14; recorded regression inputs; oracle = exhaustive branch-and-bound", chunk=32))
 
